@@ -5,6 +5,8 @@ CONSTANTS
   HasHf = FALSE
   Absent0 <- AbsMid
   Admin = TRUE
+  AlwaysW = TRUE
+  AlwaysPRs = TRUE
   Cmds = {}
   Rewrites = FALSE
   NP = 1
